@@ -183,6 +183,7 @@ func (u *Universe) verifyContract(c *Contract, variant map[string]string) (res *
 		pre.where = r.Line
 		st.assume(pre.boolTerm(pre.expr(r.Expr)))
 	}
+	x.assumeTheories(st, c.Theories)
 	x.propagateConsts(st)
 	x.entry = st.fork()
 	// vacuity guard: the precondition is satisfiable
@@ -494,6 +495,11 @@ func (u *Universe) verifyLemma(l *Lemma) (res *FuncResult) {
 		e.names[p.Name] = v
 		x.recordInput(p.Name, v, t, st)
 	}
+	if l.Theory != "" && !l.Axiom {
+		x.axiomsOnly = true
+		x.assumeTheories(st, strings.Fields(l.Theory))
+		x.axiomsOnly = false
+	}
 	for _, r := range l.Requires {
 		e.where = r.Line
 		st.assume(e.boolTerm(e.expr(r.Expr)))
@@ -578,4 +584,66 @@ func substValue(v Value, m map[string]*Term) Value {
 		return StructV{f, c.Typ}
 	}
 	return v
+}
+
+// assumeTheories adds the axioms of the named theories as universally quantified assumptions.
+func (x *Exec) assumeTheories(st *State, theories []string) {
+	for _, th := range theories {
+		found := false
+		for _, l := range x.U.Lemmas {
+			if !hasName(strings.Fields(l.Theory), th) || (x.axiomsOnly && !l.Axiom) {
+				continue
+			}
+			found = true
+			lpkg := x.U.Pkgs[l.PkgPath]
+			names := map[string]Value{}
+			var bound []*Term
+			var hyp, concl []*Term
+			e := &Env{x: x, st: st, pkg: contractPkgView(lpkg), names: names, contract: true, where: l.Where}
+			for _, p := range l.Params {
+				t, err := x.U.resolveType(lpkg, p.Type)
+				if err != nil {
+					unsupported("%s: %v", l.Where, err)
+				}
+				if at, ok := t.Underlying().(*types.Array); ok && at.Len() > 0 && at.Len() <= 64 {
+					es := e.R().sortOf(at.Elem())
+					arr := ConstArr(e.zeroElem(at.Elem()))
+					for i := int64(0); i < at.Len(); i++ {
+						v := x.fresh(fmt.Sprintf("%s%d", p.Name, i), es)
+						bound = append(bound, v)
+						hyp = append(hyp, e.R().rangeOf(v, at.Elem()))
+						arr = Store(arr, IntC(i), v)
+					}
+					names[p.Name] = ArrayV{T: arr, N: at.Len(), Elem: at.Elem(), Typ: t}
+					continue
+				}
+				s := e.R().sortOf(t)
+				if isMathInt(t) {
+					s = IntS
+				}
+				if s == nil {
+					unsupported("%s: axiom parameter %s of type %s cannot be quantified", l.Where, p.Name, t)
+				}
+				v := x.fresh(p.Name, s)
+				bound = append(bound, v)
+				hyp = append(hyp, e.R().rangeOf(v, t))
+				names[p.Name] = Scalar{v, t}
+			}
+			for _, r := range l.Requires {
+				e.where = r.Line
+				hyp = append(hyp, e.boolTerm(e.expr(r.Expr)))
+			}
+			for _, en := range l.Ensures {
+				e.where = en.Line
+				concl = append(concl, e.boolTerm(e.expr(en.Expr)))
+			}
+			st.assume(Forall(bound, Implies(And(hyp...), And(concl...))))
+			if l.Axiom {
+				x.trusted["axiom "+shortPkg(l.PkgPath)+"."+l.Name+" (theory "+th+")"] = true
+			}
+		}
+		if !found {
+			unsupported("no axioms are declared for theory %s", th)
+		}
+	}
 }
